@@ -13,6 +13,7 @@ import (
 	"fmt"
 	"runtime"
 	"sync"
+	"time"
 
 	"verif/ref"
 	"verif/sim"
@@ -43,8 +44,14 @@ func runOne(c *verdict.Ctx, idx int) {
 	r := c.Rand("exec", idx)
 	cfg := sim.DrawConfig(r, false)
 	cfg.Bumps = false // keep power ratios <= 5:1 so that W stays small
-	net := sim.NewNet(r, sim.NetOpt{Seed: c.SubSeed("keys", idx), Powers: cfg.Powers, Faulty: cfg.Faulty,
-		SkipTimeoutCommit: cfg.Skip, InitialHeight: cfg.InitialH})
+	timed := r.Intn(3) == 0
+	delta := time.Duration(20+r.Intn(100)) * time.Millisecond // message delay of the timed suffix: 0.5x .. 3x the base propose timeout
+	nopt := sim.NetOpt{Seed: c.SubSeed("keys", idx), Powers: cfg.Powers, Faulty: cfg.Faulty,
+		SkipTimeoutCommit: cfg.Skip, InitialHeight: cfg.InitialH}
+	if timed {
+		nopt.NodeOpt = func(i int) sim.NodeOpt { return sim.NodeOpt{Config: sim.TimedConfig(cfg.Skip)} }
+	}
+	net := sim.NewNet(r, nopt)
 	defer net.Close()
 	net.TraceOn = c.Replay() != ""
 	net.Start()
@@ -114,11 +121,22 @@ func runOne(c *verdict.Ctx, idx int) {
 	for _, i := range net.Order {
 		need[string(net.Keys[i].PubKey().Address())] = true
 	}
+	// in timed mode rounds can only succeed once the timeouts have grown past what a round needs
+	// (proposal, prevotes, precommits each take delta, plus the gossip period for relayed material)
+	gossipEvery := delta / 2
+	base := rstar
+	var rNeed int32
+	if timed {
+		rNeed = sim.FirstSufficientRound(3*delta + 2*gossipEvery)
+		if rNeed > base {
+			base = rNeed
+		}
+	}
 	W := -1
-	for k := int(rstar); k < len(sched); k++ { // round k+1 > rstar
+	for k := int(base); k < len(sched); k++ { // round k+1 > base
 		delete(need, string(sched[k]))
 		if len(need) == 0 {
-			W = k + 1 - int(rstar)
+			W = k + 1 - int(base)
 			break
 		}
 	}
@@ -126,12 +144,24 @@ func runOne(c *verdict.Ctx, idx int) {
 		c.Inconclusive("proposer schedule does not cover every correct validator within 400 rounds")
 		return
 	}
-	bound := rstar + int32(W) + 2
-	res := net.RunSync(H, bound, 20000, func() {
+	bound := base + int32(W) + 2
+	byz := func() {
 		if len(net.Faulty) > 0 && net.R.Intn(2) == 0 {
 			net.ByzStep()
 		}
-	})
+	}
+	var res sim.SyncResult
+	if timed {
+		res = net.RunTimed(H, bound, delta, gossipEvery, 400000, byz)
+		c.Count("timed.executions", 1)
+		c.Max("timed.max_first_sufficient_round", int64(rNeed))
+		c.Max("timed.max_round_reached", int64(res.MaxRound))
+		if res.MaxRound > rstar {
+			c.Count("timed.executions_needing_later_rounds", 1)
+		}
+	} else {
+		res = net.RunSync(H, bound, 20000, byz)
+	}
 	c.Eval()
 	c.Count("suffix.rounds_used_beyond_rstar", int64(res.MaxRound-rstar))
 	c.Max("suffix.max_rounds_beyond_rstar", int64(res.MaxRound-rstar))
@@ -160,6 +190,9 @@ func runOne(c *verdict.Ctx, idx int) {
 			rs.LockedRound, rs.ValidRound, rs.Proposal != nil, net.Nodes[i].Blocks.Height(), p, t.Height, t.Round, t.Step))
 	}
 	w := witness{"exec", idx, cfg, H, rstar, W, bound, res, nodes, tail(net.Trace, 150)}
+	if timed {
+		w.Stream = fmt.Sprintf("exec(timed delta=%v first_sufficient_round=%d)", delta, rNeed)
+	}
 	switch {
 	case res.Decided && res.MaxRound <= bound:
 		c.Count("suffix.decided_within_bound", 1)
@@ -167,6 +200,8 @@ func runOne(c *verdict.Ctx, idx int) {
 		c.Violation("correct-node-halted-on-panic", fmt.Sprintf("a correct node stopped with a consensus panic while faulty power is below 1/3: %v", net.HaltedNodes()), w)
 	case res.Wedged:
 		c.Violation("wedged-after-synchrony", fmt.Sprintf("nothing in flight, gossip changes nothing and no correct node has a pending timeout, but height %d is undecided", H), w)
+	case res.MaxRound > bound && timed:
+		c.Violation("round-bound-exceeded-timed", fmt.Sprintf("timed suffix (delay %v): a correct node entered round %d of height %d; bound max(R*, r_delta)+W+2 = max(%d,%d)+%d+2", delta, res.MaxRound, H, rstar, rNeed, W), w)
 	case res.MaxRound > bound:
 		c.Violation("round-bound-exceeded", fmt.Sprintf("a correct node entered round %d of height %d; bound R*+W+2 = %d+%d+2", res.MaxRound, H, rstar, W), w)
 	case res.Budget:
